@@ -248,8 +248,8 @@ func (x *Gen) History(k knob, last Case) Case {
 		}
 		cur = (cur + 1 + g.Intn(len(vals)-1)) % len(vals)
 	}
-	x.r.Hit("cfg:knob=" + k.name())
-	x.r.Hit(fmt.Sprintf("cfg:changes=%d", n))
+	x.hit("cfg:knob=" + k.name())
+	x.hit(fmt.Sprintf("cfg:changes=%d", n))
 	last.Seq = append(seq, last.Seq...)
 	last.Note = "cfg:" + k.name()
 	return last
